@@ -1,6 +1,7 @@
 package main
 
 import (
+	"go/token"
 	"sort"
 	"strings"
 
@@ -404,4 +405,156 @@ func (w *World) implementsInterfaceMethod(f *ssa.Function) bool {
 		}
 	}
 	return false
+}
+
+// Leak is a return reached with a lock (acquired in the same function, not
+// released by a defer) possibly still held.
+type Leak struct {
+	Ret  *ssa.Return
+	Key  string
+	Must bool // held on every path to this return
+}
+
+// deferredUnlockKeys: lock paths released by a defer (direct or through a
+// deferred closure), in the outer function's path space.
+func deferredUnlockKeys(f *ssa.Function) map[string]bool {
+	out := map[string]bool{}
+	Instrs(f, func(in ssa.Instruction) {
+		d, ok := in.(*ssa.Defer)
+		if !ok {
+			return
+		}
+		if op, addr := lockOp(d); op == "Unlock" || op == "RUnlock" {
+			out[lockKey(addr)] = true
+			return
+		}
+		if mc, ok := d.Call.Value.(*ssa.MakeClosure); ok {
+			if fn, ok := mc.Fn.(*ssa.Function); ok {
+				Instrs(fn, func(in2 ssa.Instruction) {
+					if op, addr := lockOp(in2); op == "Unlock" || op == "RUnlock" {
+						k := lockKey(addr)
+						out[k] = true
+						out[strings.Replace(k, "free:", "param:", 1)] = true
+						out[strings.Replace(k, "free:", "local:", 1)] = true
+					}
+				})
+			}
+		}
+	})
+	return out
+}
+
+// Leaks runs a forward may-held analysis over f for locks acquired inside f
+// (directly or through an acquiring wrapper) and reports every return that a
+// lock can reach without a release. Path-insensitive: a lock taken and
+// released under the same condition in two separate ifs would be reported;
+// the callers of this function list such idioms explicitly if they occur.
+func (la *LockAn) Leaks(f *ssa.Function) []Leak {
+	if len(f.Blocks) == 0 {
+		return nil
+	}
+	type set map[string]bool
+	out := map[*ssa.BasicBlock]set{}
+	step := func(st set, ins ssa.Instruction) {
+		if _, isDefer := ins.(*ssa.Defer); isDefer {
+			return
+		}
+		if _, isGo := ins.(*ssa.Go); isGo {
+			return
+		}
+		if op, addr := lockOp(ins); op != "" {
+			k := lockKey(addr)
+			switch op {
+			case "Lock", "RLock":
+				st[k] = true
+			default:
+				delete(st, k)
+			}
+			return
+		}
+		if c, ok := ins.(*ssa.Call); ok {
+			if callee := c.Call.StaticCallee(); callee != nil {
+				if s := la.sum[origin(callee)]; s != nil {
+					for k := range s.rel {
+						if ck, ok := mapToCaller(k, c, origin(callee)); ok {
+							delete(st, ck)
+						}
+					}
+					for k := range s.acq {
+						if ck, ok := mapToCaller(k, c, origin(callee)); ok {
+							st[ck] = true
+						}
+					}
+				}
+			}
+		}
+	}
+	for changed := true; changed; {
+		changed = false
+		for _, b := range f.DomPreorder() {
+			st := set{}
+			for _, p := range b.Preds {
+				for k := range out[p] {
+					st[k] = true
+				}
+			}
+			for _, ins := range b.Instrs {
+				step(st, ins)
+			}
+			if old, ok := out[b]; !ok || len(old) != len(st) {
+				out[b] = st
+				changed = true
+			} else {
+				for k := range st {
+					if !old[k] {
+						out[b] = st
+						changed = true
+					}
+				}
+			}
+		}
+	}
+	deferred := deferredUnlockKeys(f)
+	var leaks []Leak
+	for _, b := range f.Blocks {
+		if b == f.Recover || len(b.Instrs) == 0 {
+			continue
+		}
+		ret, ok := b.Instrs[len(b.Instrs)-1].(*ssa.Return)
+		if !ok {
+			continue
+		}
+		var keys []string
+		for k := range out[b] {
+			if !deferred[k] {
+				keys = append(keys, k)
+			}
+		}
+		sort.Strings(keys)
+		for _, k := range keys {
+			_, must := la.before[ret][k]
+			leaks = append(leaks, Leak{ret, k, must})
+		}
+	}
+	return leaks
+}
+
+// acquiresMutexOf: does f call Lock/RLock on field mutex of struct pkg.name?
+func acquiresMutexOf(f *ssa.Function, pkg, name, mutex string) bool {
+	found := false
+	Instrs(f, func(in ssa.Instruction) {
+		if op, addr := lockOp(in); op == "Lock" || op == "RLock" {
+			a := peel(addr)
+			if u, ok := a.(*ssa.UnOp); ok && u.Op == token.MUL {
+				a = u.X // mutex held by pointer
+			}
+			if fa, ok := a.(*ssa.FieldAddr); ok {
+				p, n := namedOf(fa.X.Type())
+				if p == pkg && n == name && fieldName(fa.X.Type(), fa.Field) == mutex {
+					found = true
+				}
+			}
+		}
+	})
+	return found
 }
